@@ -36,6 +36,10 @@ size_t outbuf_extend (outbuffer_t * outbuf, size_t len) {
     }
   else
     {
+      /* the first piece is held to the same USHRT_MAX limit as every later one; all the
+       * other functions here rely on real_size <= USHRT_MAX */
+      if (len > USHRT_MAX)
+        len = USHRT_MAX;
       outbuf->buffer = new_string (len, "outbuf_add");
       outbuf->real_size = 0;
     }
@@ -76,6 +80,15 @@ void outbuf_add (outbuffer_t * outbuf, const char *str) {
     }
   else
     {
+      if (len > USHRT_MAX)
+        {
+          /* TRUNCATED, like a later piece that does not fit */
+          outbuf->buffer = new_string (USHRT_MAX, "outbuf_add");
+          strncpy (outbuf->buffer, str, USHRT_MAX);
+          outbuf->buffer[USHRT_MAX] = 0;
+          outbuf->real_size = USHRT_MAX;
+          return;
+        }
       outbuf->buffer = new_string (len, "outbuf_add");
       outbuf->real_size = 0;
     }
